@@ -58,6 +58,12 @@ def addSidecar (b : SBucket) (t : Ticket) : SRes SBucket :=
     | some v => if v.length ≠ 0 then .exists_ else storeSidecar b key t
     | none => storeSidecar b key t
 
+/-- `AddSidecarWithBid`: the ticket's order part is REPLACED by a fresh one holding only the bid's nonce,
+then the ticket is stored as by `AddSidecar`.  (The bid template goes into the nested template bucket, which
+belongs to C10's model; `UpdateSidecar` into a terminal state deletes it again and then stores the ticket.) -/
+def addSidecarWithBid (b : SBucket) (t : Ticket) (bidNonce : Bytes) : SRes SBucket :=
+  addSidecar b { t with order := some { bidNonce := bidNonce, sigOrderDigest := none } }
+
 /-- `UpdateSidecar`: the ticket given by the caller replaces the stored one entirely -/
 def updateSidecar (b : SBucket) (t : Ticket) : SRes SBucket :=
   match getSidecarKey t.id t.offer.signPubKey with
